@@ -72,6 +72,7 @@ const (
 	fHugeStepCount    = "scenario-huge-step-count-allocates"
 	fHugeWeight       = "scenario-huge-weight-allocates"
 	fJSONArrayTrailer = "httpjson-array-trailing-garbage-accepted"
+	fRawLastLine      = "raw-unterminated-last-line-ignored"
 )
 
 // panicSites maps a frame of pandora's code to the finding whose symptom is a panic
